@@ -1675,7 +1675,7 @@ class Interp:
                     pass  # the model does not apply to this receiver: python's own semantics below
             if isinstance(recv, Obj) and isinstance(recv.attrs.get(f.attr), PyFunc):
                 return recv.attrs[f.attr].f(self.eval_args(e.args), self.eval_kwargs(e.keywords))  # a modelled callable stored on the object
-            if isinstance(recv, Obj) and ((recv.name == "functools" and f.attr in ("reduce", "partial")) or (recv.name == "itertools" and f.attr in ("accumulate", "count", "chain")) or (recv.name == "math" and f.attr == "prod") or (recv.name == "collections" and f.attr in ("ChainMap", "defaultdict")) or (recv.name == "types" and f.attr == "MappingProxyType")):
+            if isinstance(recv, Obj) and ((recv.name == "functools" and f.attr in ("reduce", "partial")) or (recv.name == "itertools" and f.attr in ("accumulate", "count", "chain", "compress")) or (recv.name == "math" and f.attr == "prod") or (recv.name == "collections" and f.attr in ("ChainMap", "defaultdict")) or (recv.name == "types" and f.attr == "MappingProxyType")):
                 pass  # the standard-library functions modelled below, whatever stands for the module in the scenario (also a function-level `import itertools`)
             elif isinstance(recv, Obj) and recv.name != "tensorlib":  # the backend stand-in's methods are the array functions below, whatever the local variable is called
                 if recv.attrs.get("__strict_calls__"):
@@ -1807,6 +1807,22 @@ class Interp:
         ev = self.eval
         if name == "deepcopy" and args:
             return _deepcopy_value(ev(args[0]))
+        if name == "partial" and "partial" not in self.env and args and A.dotted(f) in ("functools.partial", "partial"):
+            tgt_ = args[0]
+            tn_ = (A.dotted(tgt_) or "").split(".")[-1]
+            if tn_ and callable(self.externals.get(tn_)) and not (isinstance(tgt_, ast.Name) and tgt_.id in self.env):
+                under_ = PyFunc(lambda a, k, g_=self.externals[tn_]: g_(a, k), tn_)  # a modelled library function, however it is qualified
+            else:
+                under_ = ev(tgt_)
+            pa_, pk_ = self.eval_args(args[1:]), self.eval_kwargs(e.keywords)
+            if isinstance(under_, PyFunc):
+                return PyFunc(lambda a, k, u_=under_: u_.f(list(pa_) + list(a), {**pk_, **k}), f"partial({under_.name if hasattr(under_, 'name') else tn_})")
+            if isinstance(under_, Closure):
+                return PyFunc(lambda a, k, u_=under_: self._call_closure(u_, list(pa_) + list(a), {**pk_, **k}), "partial(closure)")
+            raise Undecided("functools.partial of an unmodelled callable")
+        if name == "compress" and "compress" not in self.env and len(args) == 2 and A.dotted(f) in ("itertools.compress", "compress"):
+            d_, s_ = self.iterable(ev(args[0]), "compress"), self.iterable(ev(args[1]), "compress")
+            return [x_ for x_, y_ in zip(d_, s_) if self.truth(y_)]
         if name == "namedtuple" and "namedtuple" not in self.env and len(args) >= 2:
             import collections as _c
             tn_, fl_ = ev(args[0]), ev(args[1])
